@@ -7,7 +7,7 @@ from debian_inspector import contents
 
 PNAMES = ['bash', 'libc6', 'g++', 'coreutils', 'a', 'python3.11', 'x-y', 'zsh']
 QUALS = ['', 'utils/', 'non-free/utils/', 'admin/', 'universe/net/']
-SEGS = ['usr', 'bin', 'share', 'doc', 'a b', 'lib x', 'etc', 'f.txt', 'README', 'été', 'x,y', 'FILE', 'LOCATION', '0']
+SEGS = ['usr', 'bin', 'share', 'doc', 'a b', 'lib x', 'Level  One.map', 'a   b', 'tab\there', 'x \t y', 'etc', 'f.txt', 'README', 'été', 'x,y', 'FILE', 'LOCATION', '0']
 
 
 def table(rng, maxrows=12):
